@@ -16,6 +16,7 @@ let () =
   Ad_notifier.init ();
   Ad_exclusive.init ();
   Ad_waitcond.init ();
+  Ad_cleanerproto.init ();
   let fn_cases = ref 0 and fn_bad = ref 0 in
   let file = Sys.argv.(1) in
   let ic = open_in file in
